@@ -454,6 +454,21 @@ func bitsBinop(op token.Token, x, y Val, t types.Type) (Val, bool) {
 	if !ok {
 		return nil, false
 	}
+	// unsigned division and remainder by a power of two are the shift and the mask
+	if (op == token.QUO || op == token.REM) && !signed {
+		if cy, ok := y.(Const); ok && cy.V != nil && cy.V.Kind() == constant.Int {
+			if c, exact := constant.Uint64Val(cy.V); exact && c != 0 && c&(c-1) == 0 {
+				k := 0
+				for c>>uint(k) != 1 {
+					k++
+				}
+				if op == token.QUO {
+					return bitsBinop(token.SHR, x, Const{constant.MakeInt64(int64(k))}, t)
+				}
+				return bitsBinop(token.AND, x, Const{constant.MakeUint64(c - 1)}, t)
+			}
+		}
+	}
 	switch op {
 	case token.ADD, token.SUB:
 		// const on the right (or left for ADD)
